@@ -362,9 +362,7 @@ impl World {
     /// the persisted list of managed files (canonical names)
     pub fn managed(&self) -> Value {
         use tantivy::directory::Directory;
-        let prev = self.dir.quiet.swap(true, std::sync::atomic::Ordering::SeqCst);
-        let r = self.dir.atomic_read(std::path::Path::new(".managed.json"));
-        self.dir.set_quiet(prev);
+        let r = crate::simdir::quietly(|| self.dir.atomic_read(std::path::Path::new(".managed.json")));
         match r {
             Ok(b) => {
                 let v: Value = serde_json::from_slice(&b).unwrap_or(Value::Null);
@@ -388,9 +386,7 @@ pub fn errclass(e: &tantivy::TantivyError) -> String {
 /// {"ok":true,"metaop":..,"payload":..,"segs":[{"sid","max_doc","docs":[[id,t,v,fid,fv],...]}],
 ///  "byterm":{"a":[ids...]}, "n": total alive}
 pub fn observe_dir(dir: &SimDir, tracer: &Tracer) -> Value {
-    let prev = dir.quiet.swap(true, std::sync::atomic::Ordering::SeqCst);
-    let r = std::panic::catch_unwind(std::panic::AssertUnwindSafe(|| observe_dir_inner(dir, tracer)));
-    dir.set_quiet(prev);
+    let r = std::panic::catch_unwind(std::panic::AssertUnwindSafe(|| crate::simdir::quietly(|| observe_dir_inner(dir, tracer))));
     match r {
         Ok(Ok(v)) => v,
         Ok(Err(e)) => json!({"ok":false,"err":e}),
